@@ -2,9 +2,9 @@
 Model of `src/inner_op/somerc.rs`: Swiss oblique Mercator.
 
 The constructor stores `K`, `R`, `c`, `sin_phi_0_p`, `cos_phi_0_p`.  The inverse's latitude
-iteration is ported as written: `phi` and `prev_phi` both start at `phi_p`, so the convergence
-test `|phi - prev_phi| < EPS_10` holds before the first round and the loop body never runs
-unless `phi_p` is NaN (then it runs all 20 rounds and the tuple fails).
+iteration is ported as written (after the repair of the loop that never ran): `prev_phi` starts as
+NaN, so the first comparison fails and the iteration runs at least once; it stops when two
+consecutive latitudes agree to `EPS_10`, and a tuple for which 20 rounds do not suffice fails.
 -/
 import Geodesy.Model.Ops.Laea
 
